@@ -21,8 +21,8 @@ FUNCTIONS = [
     "batchie.cli.prepare_retrospective_simulation.main / calculate_scores.main / select_next_plate.main / train_model.main (argument parsers stubbed)",
 ]
 BOUNDS = {
-    "quick": "the small shapes of C05/C06/C08/C11: every retrospective operation on its family screen, scorers on 3 plates, one Gibbs sweep of each shipped model on 3 observations (embedding size 1, a sample and a treatment without data), the four CLI entry points",
-    "thorough": "same with the larger C11 families",
+    "quick": "the small shapes of C05/C06/C08/C11: every retrospective operation on its family screens (two generated structures included), scorers on 3 plates, one Gibbs sweep of each shipped model on 3 observations (embedding size 1, a sample and a treatment without data), the four CLI entry points",
+    "thorough": "same with the larger C11 families and the 64 generated screen structures of C11/C13",
 }
 ASSUMPTIONS = [
     "numpy generators are modelled as named streams of fresh unknowns; every draw is logged with its stream and the batchie call site",
